@@ -48,7 +48,7 @@ func SignPrivateKey(digest []byte, algorithm string, key jwk.Key) (signature []b
 		return signPrivateKeyRSAPSS(digest, getSHAHash(algorithm), key)
 
 	case Algorithm_ES256, Algorithm_ES384, Algorithm_ES512:
-		return signPrivateKeyECDSA(digest, key)
+		return signPrivateKeyECDSA(digest, algorithm, key)
 
 	case Algorithm_EdDSA:
 		return signPrivateKeyEdDSA(digest, key)
@@ -74,9 +74,26 @@ func signPrivateKeyRSAPSS(digest []byte, hash crypto.Hash, key jwk.Key) ([]byte,
 	return rsa.SignPSS(rand.Reader, rsaKey, hash, digest, nil)
 }
 
-func signPrivateKeyECDSA(digest []byte, key jwk.Key) ([]byte, error) {
+// ecdsaCurveBits returns the size of the curve that the JWA algorithm is defined on (ES256: P-256, ES384: P-384, ES512: P-521).
+func ecdsaCurveBits(algorithm string) int {
+	switch algorithm {
+	case Algorithm_ES256:
+		return 256
+	case Algorithm_ES384:
+		return 384
+	case Algorithm_ES512:
+		return 521
+	default:
+		return 0
+	}
+}
+
+func signPrivateKeyECDSA(digest []byte, algorithm string, key jwk.Key) ([]byte, error) {
 	ecdsaKey := &ecdsa.PrivateKey{}
 	if key.Raw(ecdsaKey) != nil {
+		return nil, ErrKeyTypeMismatch
+	}
+	if ecdsaKey.Curve == nil || ecdsaKey.Curve.Params().BitSize != ecdsaCurveBits(algorithm) {
 		return nil, ErrKeyTypeMismatch
 	}
 
@@ -122,7 +139,7 @@ func VerifyPublicKey(digest []byte, signature []byte, algorithm string, key jwk.
 		return verifyPublicKeyRSAPSS(digest, signature, getSHAHash(algorithm), key)
 
 	case Algorithm_ES256, Algorithm_ES384, Algorithm_ES512:
-		return verifyPublicKeyECDSA(digest, signature, key)
+		return verifyPublicKeyECDSA(digest, signature, algorithm, key)
 
 	case Algorithm_EdDSA:
 		return verifyPublicKeyEdDSA(digest, signature, key)
@@ -162,9 +179,12 @@ func verifyPublicKeyRSAPSS(digest []byte, signature []byte, hash crypto.Hash, ke
 	return true, nil
 }
 
-func verifyPublicKeyECDSA(digest []byte, signature []byte, key jwk.Key) (bool, error) {
+func verifyPublicKeyECDSA(digest []byte, signature []byte, algorithm string, key jwk.Key) (bool, error) {
 	ecdsaKey := &ecdsa.PublicKey{}
 	if key.Raw(ecdsaKey) != nil {
+		return false, ErrKeyTypeMismatch
+	}
+	if ecdsaKey.Curve == nil || ecdsaKey.Curve.Params().BitSize != ecdsaCurveBits(algorithm) {
 		return false, ErrKeyTypeMismatch
 	}
 
